@@ -101,6 +101,19 @@ func VerifC06_Rekey() {
 	c06Run(L, true, 2)
 }
 
+// c06Unsigned: the queued message is one that may be relayed without signatures
+// (balance / reference-block attestations are enqueued that way); a signature
+// somebody submits for it is still only kept if it verifies.
+var c06Unsigned bool
+
+// VerifC06_Unsigned: one sign operation of every kind on a message that does not
+// require signatures.
+func VerifC06_Unsigned() {
+	c06Unsigned = true
+	defer func() { c06Unsigned = false }()
+	c06Run(1, false, 2)
+}
+
 func c06Run(L int, rekeyFocus bool, actors int) {
 	c06KeyOf = []int{0, 1, 2, 3}
 	c06SignedWith = []int{-1, -1, -1, -1}
@@ -132,7 +145,7 @@ func c06Run(L int, rekeyFocus bool, actors int) {
 		msg.Action = &evmtypes.Message_UpdateValset{UpdateValset: &evmtypes.UpdateValset{Valset: &evmtypes.Valset{ValsetID: 2,
 			Validators: []string{models.EthAddrs[0], models.EthAddrs[1], models.EthAddrs[2]}, Powers: []uint64{1431655765, 1431655765, 1431655765}}}}
 	}
-	id, err := env.Consensus.PutMessageInQueue(env.Ctx, c06Queue, msg, &consensus.PutOptions{RequireSignatures: true, RequireGasEstimation: true})
+	id, err := env.Consensus.PutMessageInQueue(env.Ctx, c06Queue, msg, &consensus.PutOptions{RequireSignatures: !c06Unsigned, RequireGasEstimation: true})
 	if err != nil {
 		panic(err)
 	}
